@@ -207,7 +207,33 @@ func TestVerifC04Dedup(t *testing.T) {
 			if len(h.ups) > 0 {
 				idle = 1500 * time.Millisecond
 			}
-			fp.quiesce(idle, 40*time.Second, nil)
+			// quiet for a while AND every request whose fetch succeeds has got as far as a response upload (under load the
+			// backend round trip alone can take longer than the idle period)
+			willSucceed := func(script []int) bool {
+				for i := 0; i < 3; i++ {
+					k := verifOK
+					if i < len(script) {
+						k = script[i]
+					}
+					if k == verifOK {
+						return true
+					}
+					if k != verifNetErr && k != verif500 {
+						return false
+					}
+				}
+				return false
+			}
+			fp.quiesce(idle, 40*time.Second, func() bool {
+				fp.mu.Lock()
+				defer fp.mu.Unlock()
+				for id := range ids {
+					if willSucceed(h.scripts[id]) && fp.upCount[id] == 0 {
+						return false
+					}
+				}
+				return true
+			})
 			inv := map[string]int{}
 			for _, v := range be.invocations() {
 				if ids[v.Tok] {
